@@ -220,6 +220,23 @@ fn semantic_rules(sc: &Sc, pre: &Store, post: &Store, acct: &Pubkey, out: &mut V
     }
 }
 
+/// a committed forced deleverage may not leave the account less healthy (maintenance health at up-to-date share values)
+fn deleverage_rules(sc: &Sc, pre: &Store, post: &Store, acct: &Pubkey, out: &mut Vec<(String, String)>) {
+    let up_to_date = |s: &Store| -> Store {
+        let mut t = s.clone();
+        for b in 0..sc.w.banks.len() {
+            let _ = act::apply(&sc.w, &mut t, &Action::Accrue { b });
+        }
+        t
+    };
+    let (pre, post) = (&up_to_date(pre), &up_to_date(post));
+    let (m0, m1) = (health::health(pre, acct, Req::Maintenance).unwrap(), health::health(post, acct, Req::Maintenance).unwrap());
+    let tol = m0.allow.clone() + m1.allow.clone() + rf::qfrac(1, 1_000_000_000);
+    if m1.health() < m0.health() - tol {
+        out.push(("deleverage_not_less_healthy".into(), format!("maintenance health went {:.9} -> {:.9}", rf::qf64(&m0.health()), rf::qf64(&m1.health()))));
+    }
+}
+
 /// a third party's repayment inside a bracket is an ordinary repayment: every bank's liquidity vault takes in at least
 /// what the account's debt in that bank went down by (the token-less write-off is the risk admin's facility)
 fn repaid_in_tokens(sc: &Sc, pre: &Store, post: &Store, acct: &Pubkey, out: &mut Vec<(String, String)>) {
@@ -340,14 +357,28 @@ pub fn shapes(alpha: &[Sym], max_len: usize) -> Vec<Vec<Sym>> {
 
 // ---------------------------------------------------------------- (b) bracket semantics grid
 
-fn grid(tier: Tier, classes: &mut BTreeMap<String, u64>, found: &mut Vec<Found>) -> u64 {
+/// the same grid for the risk admin's forced deleverage (C12): [start_deleverage, repay, withdraw, end_deleverage] on healthy
+/// and unhealthy accounts, partial amounts and close-outs; a commit may not leave the account less healthy
+pub fn deleverage_grid(tier: Tier, classes: &mut BTreeMap<String, u64>, found: &mut Vec<Found>) -> u64 {
+    grid(tier, true, classes, found)
+}
+
+fn grid(tier: Tier, delev: bool, classes: &mut BTreeMap<String, u64>, found: &mut Vec<Found>) -> u64 {
     let mut cells = 0u64;
     // (collateral $, debt $): standard; assets >= $5 but net equity < $5; assets just under / over $5
     let portfolios: Vec<(&str, f64, f64)> = vec![("std", 1000.0, 860.0), ("thin_equity", 100.0, 96.0), ("assets_4.99", 4.99, 4.5), ("assets_5.01", 5.01, 4.5), ("deep", 1000.0, 2000.0), ("std_reduce_only", 1000.0, 860.0), ("std_stale_banks", 1000.0, 860.0), ("std_debt_bank_tokenless", 1000.0, 860.0), ("assets_4.99_debt_bank_tokenless", 4.99, 4.5)];
-    let fees: Vec<f64> = if tier == Tier::Quick { vec![0.0, 0.10] } else { vec![0.0, 0.05, 0.10, 0.25] };
+    let portfolios: Vec<(&str, f64, f64)> = if delev { vec![("healthy", 1000.0, 400.0), ("std", 1000.0, 860.0), ("healthy_assets_4", 4.0, 1.0)] } else { let mut p = portfolios; p.extend([("healthy_std", 1000.0, 400.0), ("healthy_assets_4", 4.0, 1.0)]); p };
+    let fees: Vec<f64> = if delev { vec![0.0] } else if tier == Tier::Quick { vec![0.0, 0.10] } else { vec![0.0, 0.05, 0.10, 0.25] };
     for (fi, fee) in fees.iter().enumerate() {
         for (pi, (pname, coll, debt)) in portfolios.iter().enumerate() {
             let mut sc = scene(&format!("g{fi}{pi}"), *fee, [*coll, *coll], [*debt, *debt]);
+            if delev {
+                // the group's risk admin is the third party of the scene (it has funded token accounts)
+                let mut roles = sc.w.roles.clone();
+                roles.risk = sc.w.users[sc.liq].authority;
+                let r = process_tx(&mut sc.s, &Tx::one(ix::group_configure(sc.w.group, sc.w.roles.admin, &roles, None, None), &[sc.w.roles.admin]));
+                assert!(r.ok(), "C12 deleverage grid: naming the risk admin failed: {}", crate::svm::err_name(r.code()));
+            }
             if pname.ends_with("reduce_only") {
                 // the admin has put the collateral bank into reduce-only mode: withdrawals still work and the
                 // collateral still counts in full for maintenance health and for the seized-vs-repaid comparison
@@ -399,7 +430,7 @@ fn grid(tier: Tier, classes: &mut BTreeMap<String, u64>, found: &mut Vec<Found>)
                         let r_amt = (debt * rfr / 25.0 * 1e9) as u64;
                         let rem = w.risk_metas(&sc.s, &acct, None, None);
                         let ta = |b: usize| w.users[sc.liq].tokens[&w.banks[b].mint];
-                        let mut ixs = vec![ix::start_liquidation(acct, liq, rem.clone())];
+                        let mut ixs = vec![if delev { ix::start_deleverage(w.group, acct, liq, rem.clone()) } else { ix::start_liquidation(acct, liq, rem.clone()) }];
                         let (w_all, r_all) = (all_flags && wf == 1.0, all_flags && rfr == 1.0);
                         if r_amt > 0 || r_all {
                             ixs.push(ix::repay(w.group, acct, liq, w.banks[1].key, ta(1), w.banks[1].token_program, r_amt, if r_all { Some(true) } else { None }, vec![]));
@@ -422,20 +453,32 @@ fn grid(tier: Tier, classes: &mut BTreeMap<String, u64>, found: &mut Vec<Found>)
                             }
                             end_rem = keep;
                         }
-                        ixs.push(ix::end_liquidation(acct, liq, w.fee_wallet, end_rem));
+                        ixs.push(if delev { ix::end_deleverage(w.group, acct, liq, end_rem) } else { ix::end_liquidation(acct, liq, w.fee_wallet, end_rem) });
                         let mut post = sc.s.clone();
                         let r = process_tx(&mut post, &Tx::new(ixs, &[liq]));
                         cells += 1;
-                        let rep = json!({"model": "C10b", "fee": fee, "portfolio": pname, "withdraw_fraction": wf, "repay_fraction": rfr, "all_flags": all_flags});
+                        let gname = if delev { "deleverage_grid" } else { "grid" };
+                        let rep = json!({"model": if delev { "C12d" } else { "C10b" }, "fee": fee, "portfolio": pname, "withdraw_fraction": wf, "repay_fraction": rfr, "all_flags": all_flags});
                         if !r.ok() {
-                            *classes.entry(format!("grid:{pname}:refused:{}", crate::svm::err_name(r.code()))).or_insert(0) += 1;
+                            *classes.entry(format!("{gname}:{pname}:refused:{}", crate::svm::err_name(r.code()))).or_insert(0) += 1;
                             continue;
                         }
-                        *classes.entry(format!("grid:{pname}:committed")).or_insert(0) += 1;
+                        *classes.entry(format!("{gname}:{pname}:committed")).or_insert(0) += 1;
                         let mut viol = vec![];
                         markers_clear(&sc, &post, &mut viol);
-                        semantic_rules(&sc, &sc.s, &post, &acct, &mut viol);
+                        if delev {
+                            deleverage_rules(&sc, &sc.s, &post, &acct, &mut viol);
+                        } else {
+                            semantic_rules(&sc, &sc.s, &post, &acct, &mut viol);
+                        }
                         repaid_in_tokens(&sc, &sc.s, &post, &acct, &mut viol);
+                        if delev {
+                            for (c, d) in viol {
+                                let clause = if c == "deleverage_not_less_healthy" { "C12.deleverage_not_less_healthy" } else { "C12.deleverage_bracketed" };
+                                found.push(Found { clause: clause.into(), sig: format!("deleverage_grid:{pname}"), detail: format!("portfolio {pname} (collateral ${coll}, debt ${debt}), the risk admin withdraws {wf} / repays {rfr} of the position (close-out flags: {all_flags}): {d}"), replay: rep.clone() });
+                            }
+                            continue;
+                        }
                         for (c, d) in viol {
                             found.push(Found { clause: format!("C10.{c}"), sig: format!("grid:{pname}:fee{fee}"), detail: format!("portfolio {pname} (collateral ${coll}, debt ${debt}), max fee {fee}, withdraw {wf} / repay {rfr} of the position: {d}"), replay: rep.clone() });
                         }
@@ -601,7 +644,7 @@ pub fn run(tier: Tier) -> Outcome {
         }
         shape_cells += lists.len() as u64;
     }
-    let grid_cells = grid(tier, &mut classes, &mut found) + worthless_collateral(&mut classes, &mut found) + unreadable_oracle_at_start(&mut classes, &mut found);
+    let grid_cells = grid(tier, false, &mut classes, &mut found) + worthless_collateral(&mut classes, &mut found) + unreadable_oracle_at_start(&mut classes, &mut found);
     let mut o = Outcome { level: "model_checking".into(), ..Default::default() };
     let mut uniq: BTreeMap<(String, String), Found> = BTreeMap::new();
     for f in found {
@@ -656,7 +699,7 @@ pub fn replay(v: &serde_json::Value) -> Vec<crate::mc::Violation> {
     }
     let mut classes = BTreeMap::new();
     let mut found = vec![];
-    grid(Tier::Quick, &mut classes, &mut found);
+    grid(Tier::Quick, false, &mut classes, &mut found);
     let p = v["portfolio"].as_str().unwrap_or("").to_string();
     found.into_iter().filter(|f| f.sig.contains(&p)).map(|f| crate::mc::Violation { clause: f.clause, detail: f.detail }).collect()
 }
